@@ -116,6 +116,11 @@ impl MuxStream {
     #[tracing::instrument(skip_all, level = "trace", fields(flow_id = %format_args!("{:08x}", self.flow_id)))]
     #[inline]
     pub fn poll_write_push(&self, cx: &Context<'_>, buf: &[u8]) -> Poll<Option<()>> {
+        if buf.is_empty() {
+            // The reader on the other end interprets an empty payload as EOF,
+            // so a zero-length write must not be put on the wire.
+            return Poll::Ready(Some(()));
+        }
         let Some(()) = ready!(self.poll_obtain_write_permission(cx)) else {
             return Poll::Ready(None);
         };
@@ -297,6 +302,10 @@ mod tokio_io_impls {
             for buf in bufs {
                 total_len += buf.len();
                 slices.push(CowBytes::Temporary(buf));
+            }
+            if total_len == 0 {
+                // See `poll_write_push`: never send an empty `Push` frame
+                return Poll::Ready(Ok(0));
             }
             let Some(()) = ready!(self.poll_obtain_write_permission(cx)) else {
                 return Poll::Ready(Err(io::ErrorKind::BrokenPipe.into()));
